@@ -748,3 +748,400 @@ func ruleX1(c *Ctx) {
 		c.anchorFail("only %d discarded mutator errors found", n)
 	}
 }
+
+// ---------- T7: one place advances the scanner ----------
+
+func init() {
+	register("T7", "the scanner's cursor moves in one place: the fields that say where the scanner is (scanner.rest, and the line and column of scanner.pos) are stored only by readRune, readLine and the constructor; everything else consumes input through readRune, which is where CR, CRLF and LF are folded into one newline and the line/column are advanced - a bulk skip (e.g. bytes.IndexByte to the next '\\n' inside a comment) would bypass that accounting and shift every later position", 4, ruleT7)
+	claim("C14", "T7")
+	claim("C16", "T7")
+}
+
+func ruleT7(c *Ctx) {
+	allowed := map[string]bool{"readRune": true, "readLine": true, "newScanner": true, "init": true}
+	n := 0
+	for _, fn := range c.P.Funcs {
+		if relPkg(fnPkgPath(fn)) != "syntax" {
+			continue
+		}
+		ord := map[string]int{}
+		eachInstr(fn, func(in ssa.Instruction) {
+			st, ok := in.(*ssa.Store)
+			if !ok {
+				return
+			}
+			tr := traceAddr(st.Addr)
+			if len(tr.fields) == 0 {
+				return
+			}
+			// scanner.rest, or Line/Col reached through scanner.pos
+			which := ""
+			for i, f := range tr.fields {
+				_, on := namedOf(tr.owners[i])
+				if on == "scanner" && f.Name() == "rest" && i == 0 {
+					which = "scanner.rest"
+				}
+				if on == "scanner" && f.Name() == "pos" {
+					which = "scanner.pos"
+				}
+			}
+			if which == "" {
+				return
+			}
+			n++
+			kb := fmt.Sprintf("%s: store %s", fnName(fn), which)
+			ord[kb]++
+			key := kb
+			if ord[kb] > 1 {
+				key = fmt.Sprintf("%s #%d", kb, ord[kb])
+			}
+			top := outermost(fn)
+			if allowed[top.Name()] || onlyCalledFromSet(c.P, top, allowed, 0) {
+				c.ok(key, c.P.Pos(st.Pos()), "the scanner's own advance routine")
+			} else {
+				c.viol(key, c.P.Pos(st.Pos()), fmt.Sprintf("%s moves the scanner's cursor itself instead of reading through readRune: newline folding (CR, CRLF, LF) and the line/column accounting are bypassed for the input it skips", fnName(top)))
+			}
+		})
+	}
+	if n < 4 {
+		c.anchorFail("only %d stores to the scanner's cursor found", n)
+	}
+}
+
+// onlyCalledFromSet: an unexported helper all of whose callers are in the allowed set (or are such helpers).
+func onlyCalledFromSet(p *Prog, fn *ssa.Function, allowed map[string]bool, depth int) bool {
+	if depth > 2 || fn.Object() == nil || fn.Object().Exported() {
+		return false
+	}
+	callers := callersInPkg(p.Funcs, fn)
+	if len(callers) == 0 {
+		return false
+	}
+	for _, g := range callers {
+		g = outermost(g)
+		if allowed[g.Name()] || g == fn {
+			continue
+		}
+		if !onlyCalledFromSet(p, g, allowed, depth+1) {
+			return false
+		}
+	}
+	return true
+}
+
+// ---------- Z7: sibling codec primitives use the same thresholds ----------
+
+func init() {
+	register("Z7", "the two halves of each codec primitive agree on their limits: for every helper that exists on both the encoder and the decoder (int, string, bytes, ...), the integer thresholds they compare lengths or values with denote the same boundary (<= 32 on one side and < 32 on the other would give an entry an index on one side only, shifting every later back-reference); a side that compares with a constant the other side never mentions is reported too", 1, ruleZ7)
+	claim("C17", "Z7")
+}
+
+func ruleZ7(c *Ctx) {
+	// methods by receiver type name
+	byRecv := map[string]map[string]*ssa.Function{"encoder": {}, "decoder": {}}
+	for _, fn := range c.P.Funcs {
+		if relPkg(fnPkgPath(fn)) != "internal/compile" || fn.Signature.Recv() == nil || fn.Parent() != nil {
+			continue
+		}
+		_, tn := namedOf(fn.Signature.Recv().Type())
+		if m, ok := byRecv[tn]; ok {
+			m[fn.Name()] = fn
+		}
+	}
+	thresholds := func(fn *ssa.Function) map[int64]bool {
+		out := map[int64]bool{}
+		eachInstr(fn, func(in ssa.Instruction) {
+			bo, ok := in.(*ssa.BinOp)
+			if !ok {
+				return
+			}
+			var k int64
+			var okk bool
+			op := bo.Op
+			if k, okk = constInt(bo.Y); !okk {
+				if k, okk = constInt(bo.X); okk {
+					op = i9Flip(op)
+				}
+			}
+			if !okk || k == 0 || k == 1 || k == -1 {
+				return
+			}
+			// normalise to the largest value on the "small" side
+			switch op {
+			case token.LSS, token.GEQ:
+				out[k-1] = true
+			case token.LEQ, token.GTR:
+				out[k] = true
+			}
+		})
+		return out
+	}
+	n := 0
+	for name, ef := range byRecv["encoder"] {
+		df := byRecv["decoder"][name]
+		if df == nil {
+			continue
+		}
+		n++
+		key := "codec primitive " + name
+		te, td := thresholds(ef), thresholds(df)
+		bad := ""
+		for k := range te {
+			if !td[k] {
+				bad = fmt.Sprintf("the encoder's %s distinguishes values up to %d, the decoder's does not", name, k)
+			}
+		}
+		for k := range td {
+			if !te[k] {
+				bad = fmt.Sprintf("the decoder's %s distinguishes values up to %d, the encoder's does not", name, k)
+			}
+		}
+		if bad != "" {
+			c.viol(key, c.P.Pos(ef.Pos()), bad+": the two sides of the wire format disagree at that boundary")
+		} else {
+			c.ok(key, c.P.Pos(ef.Pos()), fmt.Sprintf("%d threshold(s) on each side, identical", len(te)))
+		}
+	}
+	if n == 0 {
+		c.anchorFail("no encoder/decoder helper pair found")
+	}
+}
+
+// ---------- T8: literal values come from the library parsers ----------
+
+func init() {
+	register("T8", "numeric literals are converted by the standard parsers: every value the scanner stores into a token's int, float or bigInt field is the result of strconv.ParseInt/ParseUint/ParseFloat or big.Int.SetString (or a zero/nil reset); nothing is accumulated digit by digit or scaled by powers of ten, which is where double rounding (a 16-digit mantissa divided by 10^k) and unnoticed wrap-around (an int64 accumulator) come from", 2, ruleT8)
+	claim("C15", "T8")
+	claim("C14", "T8")
+	claim("C10", "T8")
+}
+
+func ruleT8(c *Ctx) {
+	n := 0
+	for _, fn := range c.P.Funcs {
+		if relPkg(fnPkgPath(fn)) != "syntax" {
+			continue
+		}
+		ord := map[string]int{}
+		eachInstr(fn, func(in ssa.Instruction) {
+			st, ok := in.(*ssa.Store)
+			if !ok {
+				return
+			}
+			fa, ok := st.Addr.(*ssa.FieldAddr)
+			if !ok {
+				return
+			}
+			o, f := ownerField(fa)
+			if o != "syntax.tokenValue" || !(f == "int" || f == "float" || f == "bigInt") {
+				return
+			}
+			n++
+			kb := fmt.Sprintf("%s: store tokenValue.%s", fnName(fn), f)
+			ord[kb]++
+			key := kb
+			if ord[kb] > 1 {
+				key = fmt.Sprintf("%s #%d", kb, ord[kb])
+			}
+			bad := ""
+			seen := map[ssa.Value]bool{}
+			var walk func(v ssa.Value, d int)
+			walk = func(v ssa.Value, d int) {
+				if d > 8 || seen[v] || bad != "" {
+					return
+				}
+				seen[v] = true
+				switch x := v.(type) {
+				case *ssa.Const:
+				case *ssa.Extract:
+					if call, ok := x.Tuple.(*ssa.Call); ok {
+						if cal := call.Call.StaticCallee(); cal != nil && cal.Blocks != nil && relPkg(fnPkgPath(cal)) == "syntax" {
+							// a helper of the scanner (parseIntLiteral): what it returns at this position
+							eachInstr(cal, func(in2 ssa.Instruction) {
+								if ret, ok := in2.(*ssa.Return); ok && x.Index < len(ret.Results) && in2.Parent() == cal {
+									walk(ret.Results[x.Index], d+1)
+								}
+							})
+							return
+						}
+					}
+					walk(x.Tuple, d+1)
+				case *ssa.Phi:
+					for _, e := range x.Edges {
+						walk(e, d+1)
+					}
+				case *ssa.Convert:
+					walk(x.X, d+1)
+				case *ssa.ChangeType:
+					walk(x.X, d+1)
+				case *ssa.Call:
+					cal := x.Call.StaticCallee()
+					if cal == nil {
+						bad = "a dynamic call"
+						return
+					}
+					if cal.Blocks != nil && relPkg(fnPkgPath(cal)) == "syntax" && cal.Signature.Results().Len() == 1 {
+						eachInstr(cal, func(in2 ssa.Instruction) {
+							if ret, ok := in2.(*ssa.Return); ok && len(ret.Results) == 1 && in2.Parent() == cal {
+								walk(ret.Results[0], d+1)
+							}
+						})
+						return
+					}
+					switch cal.String() {
+					case "strconv.ParseInt", "strconv.ParseUint", "strconv.ParseFloat", "(*math/big.Int).SetString", "(*math/big.Float).SetString":
+						return
+					}
+					if strings.HasPrefix(cal.String(), "(*math/big.") && strings.Contains(cal.Name(), "Set") {
+						return
+					}
+					bad = "the result of " + cal.String()
+				case *ssa.BinOp:
+					bad = "arithmetic (" + x.Op.String() + ")"
+				case *ssa.UnOp:
+					if x.Op == token.MUL {
+						// a local cell: follow its stores
+						if al, ok := x.X.(*ssa.Alloc); ok {
+							for _, r := range *al.Referrers() {
+								if s2, ok := r.(*ssa.Store); ok && s2.Addr == al {
+									walk(s2.Val, d+1)
+								}
+							}
+							return
+						}
+						bad = "a value loaded from memory"
+						return
+					}
+					bad = "arithmetic (" + x.Op.String() + ")"
+				case *ssa.Alloc:
+					// new(big.Int) receiver
+				default:
+					bad = fmt.Sprintf("a %T", v)
+				}
+			}
+			walk(st.Val, 0)
+			if bad == "" {
+				c.ok(key, c.P.Pos(st.Pos()), "value of a library parser (or a reset)")
+			} else {
+				c.viol(key, c.P.Pos(st.Pos()), fmt.Sprintf("the literal's value comes from %s, not from strconv/big parsing of the token text: hand-rolled conversion rounds twice or wraps for some literals, so printed numbers do not read back", bad))
+			}
+		})
+	}
+	if n < 2 {
+		c.anchorFail("only %d stores to token values found", n)
+	}
+}
+
+// ---------- Z8: the decoder owns the bytes its strings alias ----------
+
+func init() {
+	register("Z8", "decoded strings do not alias the caller's buffer: the decoder turns bytes of its string section into Go strings without copying (unsafe.String), so that section must be a private copy - every store to decoder.s is a clone (slices.Clone, append to nil, make+copy) or a sub-slice of decoder.s itself, never a sub-slice of the data handed to DecodeProgram; otherwise reusing the buffer after loading changes the program's names, constants and file name", 1, ruleZ8)
+	claim("C17", "Z8")
+}
+
+func ruleZ8(c *Ctx) {
+	n := 0
+	fc := computeReturnsFresh(c.P)
+	usesUnsafeString := false
+	for _, fn := range c.P.Funcs {
+		if relPkg(fnPkgPath(fn)) != "internal/compile" {
+			continue
+		}
+		eachInstr(fn, func(in ssa.Instruction) {
+			if call, ok := in.(*ssa.Call); ok {
+				if cal := call.Call.StaticCallee(); cal != nil && (cal.String() == "unsafe.String") {
+					usesUnsafeString = true
+				}
+				if b, ok := call.Call.Value.(*ssa.Builtin); ok && b.Name() == "String" {
+					usesUnsafeString = true
+				}
+			}
+		})
+	}
+	for _, fn := range c.P.Funcs {
+		if relPkg(fnPkgPath(fn)) != "internal/compile" {
+			continue
+		}
+		ord := 0
+		eachInstr(fn, func(in ssa.Instruction) {
+			st, ok := in.(*ssa.Store)
+			if !ok {
+				return
+			}
+			fa, ok := st.Addr.(*ssa.FieldAddr)
+			if !ok {
+				return
+			}
+			o, f := ownerField(fa)
+			if o != "internal/compile.decoder" || f != "s" {
+				return
+			}
+			n++
+			ord++
+			key := fmt.Sprintf("%s: store decoder.s #%d", fnName(fn), ord)
+			okSrc := true
+			why := ""
+			var walk func(v ssa.Value, d int)
+			seen := map[ssa.Value]bool{}
+			walk = func(v ssa.Value, d int) {
+				if d > 8 || seen[v] {
+					return
+				}
+				seen[v] = true
+				switch x := v.(type) {
+				case *ssa.Slice:
+					walk(x.X, d+1)
+				case *ssa.Phi:
+					for _, e := range x.Edges {
+						walk(e, d+1)
+					}
+				case *ssa.Call:
+					if cal := x.Call.StaticCallee(); cal != nil {
+						name := cal.String()
+						if o := cal.Origin(); o != nil {
+							name = o.String()
+						}
+						if name == "slices.Clone" || name == "bytes.Clone" {
+							return
+						}
+					}
+					if b, ok := x.Call.Value.(*ssa.Builtin); ok && b.Name() == "append" {
+						if isNilConst(x.Call.Args[0]) || isFreshValue(fc, x.Call.Args[0]) {
+							return
+						}
+						walk(x.Call.Args[0], d+1)
+						return
+					}
+					okSrc, why = false, "the result of "+calleeName(x)
+				case *ssa.MakeSlice:
+				case *ssa.UnOp:
+					if x.Op == token.MUL {
+						if fa2, ok := x.X.(*ssa.FieldAddr); ok {
+							if o2, f2 := ownerField(fa2); o2 == "internal/compile.decoder" && f2 == "s" {
+								return // remainder of the decoder's own section
+							}
+						}
+					}
+					okSrc, why = false, "a value loaded from elsewhere"
+				case *ssa.Parameter:
+					okSrc, why = false, "the parameter "+x.Name()+" (the caller's buffer)"
+				case *ssa.Const:
+				default:
+					okSrc, why = false, fmt.Sprintf("a %T", v)
+				}
+			}
+			walk(st.Val, 0)
+			switch {
+			case okSrc:
+				c.ok(key, c.P.Pos(st.Pos()), "a private copy, or the remainder of the decoder's own section")
+			case !usesUnsafeString:
+				c.ok(key, c.P.Pos(st.Pos()), "strings are copied when decoded (no unsafe.String in the package)")
+			default:
+				c.viol(key, c.P.Pos(st.Pos()), "the decoder's string section is "+why+", not a private copy, while decoded strings alias it through unsafe.String: writing to the caller's buffer after DecodeProgram returns changes the loaded program")
+			}
+		})
+	}
+	if n == 0 {
+		c.anchorFail("no store to decoder.s found")
+	}
+}
